@@ -16,7 +16,7 @@ Extraction "model.ml"
   seq_reverse seq_complement seq_transcribe seq_concat locate region_complement
   region_resize region_len region_head region_tail mod_apply minimize invert_linear
   invert_circular flatten_region invert_segments
-  complement_bytes transcribe_bytes match_segments search_segments iupac_mask compl_mask open_entry_tab fasta_format scan_fasta wrap_force as_location try_location
+  complement_bytes transcribe_bytes match_segments search_segments iupac_mask compl_mask open_entry_tab fasta_format gb_to_fasta scan_fasta wrap_force as_location try_location
   selector feval feature_filter shift_selector frag_ok frag_match repair merge_fragments alias_bytes alias_table entry_counts
   plan_delete plan_insert plan_rotate plan_split plan_extract
   default_registry scan_genbank auto_scan gb_show as_date table_parser wrap_space flatfile_split itoa
